@@ -44,7 +44,7 @@ def run():
     # result, generator refill), the AES layer (fill, program generator, fingerprint), the Argon2d fill on reduced instances (cache)
     # and the SuperscalarHash program generator on directed byte streams (dataset item)
     from checks import c09, c10, c11, c12
-    jobs = [lambda: c11.bind(ck, 'c02blake', big=False), lambda: c12.bind(ck, 'c02aes'), lambda: c10.bind(ck, os.path.join(wd, 'argon'), 'reduced', 'c02argon'),
+    jobs = [lambda: c11.bind(ck, 'c02blake', big=True), lambda: c12.bind(ck, 'c02aes'), lambda: c10.bind(ck, os.path.join(wd, 'argon'), 'reduced', 'c02argon'),
             lambda: c09.scripted(ck, os.path.join(wd, 'ssx'), 'c02ssx', lite=True)]
     with ThreadPoolExecutor(len(jobs)) as ex:
         bound = []
